@@ -199,6 +199,10 @@ func timedOff(name string, floodOff bool, b0 time.Duration, lens []int, gaps []t
 		if n < 12 {
 			line = strings.Repeat("Z", n)
 		}
+		if strings.Contains(name, "PASS line") {
+			// (a line that starts like the one whose log record is masked: it is charged by its real length)
+			line = "PASS " + strings.Repeat("x", n)
+		}
 		if strings.Contains(name, "multi-byte") && n >= 12 {
 			// n bytes of payload made of two-byte characters: the charge is per byte on the wire
 			line = "PRIVMSG #c :" + strings.Repeat("\u00fc", n/2)
@@ -284,6 +288,7 @@ func RunTimed(args []string) int {
 		{"near-threshold burst", false, 9500 * ms, []int{20, 0, 100}, nil, false},
 		{"from zero, short burst", false, 0, []int{10, 10, 10, 10}, nil, false},
 		{"multi-byte line near the threshold", false, 9000 * ms, []int{100}, nil, false},
+		{"long PASS line near the threshold", false, 7500 * ms, []int{300}, nil, false},
 		{"near-threshold burst after a reconnect", false, 9500 * ms, []int{20, 0}, nil, false},
 		{"protection off", true, 0, []int{400, 400, 400, 400, 400, 400, 400, 400, 400, 400, 400, 400}, nil, false},
 	}
